@@ -258,6 +258,9 @@ def concat(parts):
             out.append(p)
     if len(out) == 1:
         return out[0]
+    for p in out:
+        if not is_str(p):
+            raise Unsupported(f"string concatenation with a non-string value {p!r}")
     return z3.Concat(*[S(p) for p in out])
 
 
